@@ -90,7 +90,7 @@ def op_gen_calls(job):
     out = []
     for it in job['items']:
         g = CategoricalClassification()
-        X = g.generate_data(it['nsource'], it['nsamples'], cardinality=it.get('card', 6), ensure_rep=True, seed=it['seed'])
+        X = g.generate_data(it['nsource'], it['nsamples'], cardinality=it.get('card', 6), ensure_rep=True, seed=it['seed'], low=it.get('low', 0))
         if it.get('constant_source') is not None:
             X[:, it['constant_source']] = 3
         steps = []
